@@ -262,7 +262,7 @@ func (vc *VC) Emit(hyps []string, goal string, wantModel bool) string {
 		extra = append(extra, vc.defInstances(needed, sks)...)
 	}
 	if goal != "" {
-		extra = append(extra, vc.termInstances(needed, hyps, goal)...)
+		extra = append(extra, vc.termInstances(needed, hyps, goal, sks)...)
 	}
 	var b strings.Builder
 	if wantModel {
